@@ -2,6 +2,8 @@ package main
 
 import (
 	"fmt"
+	"go/types"
+	"strings"
 
 	"golang.org/x/tools/go/ssa"
 )
@@ -73,6 +75,107 @@ func compareAfterCompleteRule(r *Report, p *Prog, rule string) int {
 				r.bad(rule, key, p.pos(early.Pos()), fmt.Sprintf("the bound is compared here and only afterwards completed (at %s): the comparison sees the partial version (missing numbers as 0, a wildcard as -1) instead of the version it stands for", p.pos(cp.call.Pos())), p.pos(cp.call.Pos()))
 			} else {
 				r.ok(rule, key, p.pos(cp.call.Pos()), "no comparison of this bound can run before the completion")
+			}
+		}
+	}
+	return n
+}
+
+// guardBeforeEraseRule (C12.i GUARD-BEFORE-ERASE): the mirror image of
+// COMPARE-AFTER-COMPLETE. A validation that refuses a version because of its
+// prerelease tags ("prerelease requires 3 numbers") has to look at the tags
+// before a normalisation step erases them: if clearPre can run first, the
+// guard never sees the tags of a wildcard version and "3.x-next", which is a
+// dist-tag for npm just as "3-next" is, is accepted as the range 3.x.
+func guardBeforeEraseRule(r *Report, p *Prog, rule string) int {
+	n := 0
+	for _, f := range p.Funcs {
+		if f.Pkg == nil || f.Blocks == nil || f.Synthetic != "" || f.Pkg.Pkg.Path() != modPrefix+"semver" {
+			continue
+		}
+		// guards: If blocks whose condition reads len(X.pre) and one of whose arms returns a non-nil error
+		type guard struct {
+			b *ssa.BasicBlock
+			x ssa.Value
+		}
+		var guards []guard
+		preOf := func(v ssa.Value) ssa.Value {
+			// len(*(&X.pre))
+			c, ok := v.(*ssa.Call)
+			if !ok {
+				return nil
+			}
+			if bi, ok := c.Common().Value.(*ssa.Builtin); !ok || bi.Name() != "len" {
+				return nil
+			}
+			ld, ok := c.Common().Args[0].(*ssa.UnOp)
+			if !ok {
+				return nil
+			}
+			fa, ok := ld.X.(*ssa.FieldAddr)
+			if !ok {
+				return nil
+			}
+			pt, ok := fa.X.Type().Underlying().(*types.Pointer)
+			if !ok || !strings.HasSuffix(pt.Elem().String(), "semver.Version") {
+				return nil
+			}
+			if pt.Elem().Underlying().(*types.Struct).Field(fa.Field).Name() != "pre" {
+				return nil
+			}
+			return fa.X
+		}
+		returnsError := func(b *ssa.BasicBlock) bool {
+			ret, ok := b.Instrs[len(b.Instrs)-1].(*ssa.Return)
+			if !ok || len(ret.Results) == 0 {
+				return false
+			}
+			last := ret.Results[len(ret.Results)-1]
+			if last.Type().String() != "error" {
+				return false
+			}
+			c, isConst := last.(*ssa.Const)
+			return !(isConst && c.IsNil())
+		}
+		for _, b := range f.Blocks {
+			ifi, ok := b.Instrs[len(b.Instrs)-1].(*ssa.If)
+			if !ok {
+				continue
+			}
+			bo, ok := ifi.Cond.(*ssa.BinOp)
+			if !ok {
+				continue
+			}
+			x := preOf(bo.X)
+			if x == nil {
+				x = preOf(bo.Y)
+			}
+			if x == nil {
+				continue
+			}
+			if returnsError(b.Succs[0]) || returnsError(b.Succs[1]) {
+				guards = append(guards, guard{b, x})
+			}
+		}
+		for gi, g := range guards {
+			n++
+			key := fmt.Sprintf("%s: tag guard #%d runs before the tags can be erased", fnKey(f), gi+1)
+			var erase *ssa.Call
+			for _, b := range f.Blocks {
+				for _, in := range b.Instrs {
+					c, ok := in.(*ssa.Call)
+					if !ok || staticCalleeName(c) != "(*semver.Version).clearPre" || c.Common().Args[0] != g.x {
+						continue
+					}
+					if b != g.b && reaches(b, g.b, nil) {
+						erase = c
+					}
+				}
+			}
+			if erase != nil {
+				r.bad(rule, key, p.pos(g.b.Instrs[len(g.b.Instrs)-1].(*ssa.If).Cond.Pos()), fmt.Sprintf("the guard that refuses a version because of its prerelease tags can be reached after clearPre has dropped them (at %s): for a wildcard version the guard never fires, so a text such as 3.x-next, which is no range, is accepted as the range 3.x", p.pos(erase.Pos())), p.pos(erase.Pos()))
+			} else {
+				r.ok(rule, key, p.pos(g.b.Instrs[len(g.b.Instrs)-1].(*ssa.If).Cond.Pos()), "no clearPre on the same version can run before the guard")
 			}
 		}
 	}
